@@ -76,6 +76,8 @@ def condition_of(c):
         arr = np.array([complex(vals[2 * i], vals[2 * i + 1]) for i in range(len(vals) // 2)], dtype=(np.complex64 if is32(c) else complex))
     else:
         arr = np.array(vals, dtype=float)
+        if c.get("flavour") == "int" and not c.get("amp") and all(v == int(v) for v in vals) and len(vals) % 2 == 0:
+            arr = arr.astype(np.int64)          # an integer-valued real series held in an integer array (counts, 0/1 indicators)
     if c["shapeLen"] == 1:
         arr = arr[: c["T"]] if arr.size >= c["T"] else np.zeros(c["T"])
         return arr.reshape((c["T"],))
